@@ -180,6 +180,8 @@ def call_ext(I: Any, name: str, args: List[Term], kwargs: Dict[str, Term], st: A
         items = I.iter_items(args[0], st, ctx, node)
         if items is not None:
             from .interp import HeapObj
+            if name == "builtins.tuple":
+                return ("tuple", tuple(items))
             if name == "builtins.sorted":
                 keyf = kwargs.get("key")
                 rev = kwargs.get("reverse", c(False))
@@ -346,6 +348,11 @@ def call_ext(I: Any, name: str, args: List[Term], kwargs: Dict[str, Term], st: A
                 acc = I.call(args[0], [acc, it], {}, st, ctx, node)
             return acc
         return I.external_call(name, args, kwargs, st, ctx, node, awaited, opaque=True)
+    if name == "builtins.zip" and len(args) >= 2 and not kwargs:
+        lists = [I.iter_items(a, st, ctx, node) for a in args]
+        if all(l is not None for l in lists):
+            from .interp import HeapObj
+            return st.alloc(HeapObj("list", None, {}, [("tuple", tuple(t)) for t in zip(*lists)]))  # type: ignore[arg-type]
     if name == "itertools.compress" and len(args) == 2 and not kwargs:
         data, sels = I.iter_items(args[0], st, ctx, node), I.iter_items(args[1], st, ctx, node)
         if data is not None and sels is not None:
@@ -726,6 +733,8 @@ def length(I: Any, v: Term, st: Any, ctx: Any, node: ast.AST) -> Term:
         return c(len(v[1]))
     if v[0] == "splitlist":
         return ("nparts", v)
+    if v[0] == "splitrest":
+        return (Lin.of(("nparts", v[1])) - v[2]).term()     # the parts after the first k
     return ("len", v)
 
 
@@ -857,6 +866,10 @@ def slice_value(I: Any, base: Term, lo: Optional[Term], hi: Optional[Term], st: 
         return T.slice_seq(s, l, h)
     if base[0] in ("tuple", "clist"):
         return (base[0], base[1][l:h])
+    if base[0] == "app" and base[1] in ("time.localtime", "time.gmtime", "time.strptime"):
+        its = I.iter_items(base, st, ctx, node)
+        if its is not None:
+            return ("tuple", tuple(its[l:h]))      # a slice of a struct_time is a tuple of its fields
     if base[0] == "obj" and st.heap[base[1]].kind == "list" and not st.heap[base[1]].symbolic:
         from .interp import HeapObj
         return st.alloc(HeapObj("list", None, {}, st.heap[base[1]].items[l:h]))
@@ -932,6 +945,9 @@ def index_value(I: Any, base: Term, idx: Term, st: Any, ctx: Any, node: ast.AST)
         if (ho.kind == "obj" and ho.symbolic) or (ho.kind == "dict" and ho.symbolic):
             st.may_raise("KeyError", ("cmp", "not in", I.canon_cmp_operand(idx, st), ("keysof", ("sym", ho.name, "any"))), where)
             return ("item", ("sym", ho.name, "any"), I.canon_cmp_operand(idx, st))
+    if base[0] == "splitrest" and isinstance(i, int) and i >= 0:
+        st.may_raise("IndexError", ("cmp", "<=", ("nparts", base[1]), c(i + base[2])), where)
+        return ("seq", "s", (("txt", ("part", base[1], i + base[2])),))
     if base[0] == "splitlist":
         if isinstance(i, int) and i >= 0:
             st.may_raise("IndexError", ("cmp", "<=", ("nparts", base), c(i)), where)
@@ -1127,6 +1143,11 @@ def format_value(I: Any, x: Term, spec: str, st: Any, ctx: Any, node: ast.AST) -
     tmf = tm_field_text(x, spec)
     if tmf is not None:
         return tmf
+    if isinstance(x, tuple) and x[:1] == ("uint",) and re.fullmatch(r"0(\d+)x", spec):
+        # the zero-padded hex text of a number read from exactly that many hex digits is those digits
+        wq = T.const_width(("seq", "s", x[1]))
+        if wq is not None and int(wq) == int(spec[1:-1]):
+            return ("seq", "s", T.lower_atoms(x[1]))
     ba = byte_atom_of(x)
     if ba is not None and spec in ("02x", "02X"):
         return ("seq", "s", (ba if spec == "02x" else ("upper", ba),))
@@ -1533,6 +1554,27 @@ def call_method(I: Any, recv: Term, name: str, args: List[Term], kwargs: Dict[st
         return app("." + name, [recv] + args)
     if recv[0] == "structobj" and name == "pack" and not kwargs:
         return struct_pack(I, [recv[1]] + list(args), st, ctx, node)
+    if recv[0] == "structobj" and name in ("unpack", "unpack_from") and len(args) >= 1 and is_c(recv[1]) and isinstance(recv[1][1], str):
+        import struct as _struct
+        buf = args[0]
+        off = args[1] if len(args) > 1 else kwargs.get("offset", c(0))
+        try:
+            size = _struct.calcsize(recv[1][1])
+        except _struct.error:
+            size = None
+        if size is not None and is_c(off) and isinstance(off[1], int) and off[1] >= 0:
+            if name == "unpack_from":
+                # needs at least offset+size bytes; reads exactly that window
+                st.may_raise("struct.error", ("cmp", "<", length(I, buf, st, ctx, node), c(off[1] + size)), where)
+                window = slice_value(I, buf, c(off[1]), c(off[1] + size), st, ctx, node)
+                p0 = len(st.pending)
+                r = struct_unpack(I, [recv[1], window], st, ctx, node)
+                del st.pending[p0:]
+            else:
+                r = struct_unpack(I, [recv[1], buf], st, ctx, node)
+            if not is_top(r):
+                return ("tuple", (r,))
+            return r
     if recv[0] in ("cdict",):
         if name == "get":
             p0 = len(st.pending)
